@@ -41,6 +41,9 @@ func eLit(v Val) *Expr                 { return &Expr{Op: "lit", V: v} }
 func eVar(n string) *Expr              { return &Expr{Op: "var", Name: n} }
 func eBin(op string, l, r *Expr) *Expr { return &Expr{Op: op, Kids: []*Expr{l, r}} }
 func eDot(l *Expr, n string) *Expr     { return &Expr{Op: "dot", Name: n, Kids: []*Expr{l}} }
+func eCall(recv *Expr, fn string, args ...*Expr) *Expr {
+	return &Expr{Op: "call", Name: fn, Kids: append([]*Expr{recv}, args...)}
+}
 
 // TplFile is one template file of a tree.
 type TplFile struct {
